@@ -1,5 +1,6 @@
 #!/bin/sh
 # Build everything from files on disk only (offline).
 set -e
+python3 /verif/tools/extract_tables.py /repo
 cd /verif/lean && lake build
 cd /verif/harness && cp /repo/Cargo.lock Cargo.lock && CARGO_NET_OFFLINE=true cargo build --offline && CARGO_NET_OFFLINE=true cargo build --offline --release
